@@ -233,11 +233,21 @@ pub fn run_case(case: &str, wasm0: &[u8], version: u16, span: usize, variant: Va
     if a.code.is_empty() || a.code.iter().any(|c| c.ops.is_empty()) {
         return;
     }
+    // `span` also carries the order in which the two switches DWARF generation depends on are set:
+    // +100 = `preserve_code_transform(false)` after `generate_dwarf(true)`, +200 = before it
+    let (order, span_arg) = (span / 100, span);
+    let span = span % 100;
     let (wasm, info) = synthesize(wasm0, &a, version, span);
-    let only = format!("{:?} {} {} {}", variant, version, span, out::hex(wasm0));
+    let only = format!("{:?} {} {} {}", variant, version, span_arg, out::hex(wasm0));
     let seen = Arc::new(Mutex::new(Seen::default()));
     let mut cfg = ModuleConfig::new();
+    if order == 2 {
+        cfg.preserve_code_transform(false);
+    }
     cfg.generate_dwarf(true);
+    if order == 1 {
+        cfg.preserve_code_transform(false);
+    }
     let Ok(Ok(mut m)) = out::catch(|| cfg.parse(&wasm)) else {
         out::oracle(case, false, "C10:parse-failed", &format!("parse of a module with synthesised DWARF failed | only: {}", only));
         return;
@@ -488,7 +498,7 @@ pub fn main(seed: u64, tier: &str, only: Option<&str>) {
         g.producers = false;
         let (wasm, _) = gen::gen_valid(&mut rng, &g);
         let version = if case % 2 == 0 { 4 } else if case % 6 == 5 { 55 } else { 5 };
-        let span = [1usize, 1, 2, 3][(case / 2) % 4];
+        let span = [1usize, 1, 2, 3][(case / 2) % 4] + [0usize, 0, 0, 100, 200][case % 5];
         let v = [Variant::Unchanged, Variant::Unchanged, Variant::Inserted, Variant::Gc][(case / 3) % 4];
         run_case(&format!("d{}", case), &wasm, version, span, v, &mut stats);
     }
@@ -505,6 +515,14 @@ pub fn main(seed: u64, tier: &str, only: Option<&str>) {
         for v in [Variant::Unchanged, Variant::Inserted] {
             run_case(&format!("imany{}-{:?}", k, v), &wasm, if k % 2 == 0 { 4 } else { 5 }, 1, v, &mut stats);
         }
+    }
+    // body sizes on both sides of a LEB-length boundary, functions with locals (the subprogram's
+    // low_pc = body start is then not adjacent to an instruction and resolves through the function's
+    // range)
+    let eshapes: &[usize] = if tier == "thorough" { &[63, 64, 65, 127, 128, 129, 16383, 16384, 16385] } else { &[64, 127, 128, 129] };
+    for (k, size) in eshapes.iter().enumerate() {
+        let wasm = offsets::exact_with_locals(3, *size);
+        run_case(&format!("exact{}", k), &wasm, if k % 2 == 0 { 4 } else { 5 }, 1, Variant::Unchanged, &mut stats);
     }
     out::stat("dwarf.cases", stats.cases);
     out::stat("dwarf.rows_in", stats.rows_in);
